@@ -166,6 +166,10 @@ def _concrete_run(mod, cparams, values, funcs, S, canary=False):
             warnings.simplefilter('ignore')
             mod.case(ctx, **cparams)
     except Inadmissible as e:
+        # an assumption placed AFTER the failing assertions is not retroactive: what failed before it was reached
+        # failed on admissible input
+        if ctx.failures:
+            return True, '; '.join('%s: %s' % f for f in ctx.failures[:3])
         return False, 'inadmissible: %s' % e
     except EngineGap as e:
         return False, 'gap: %s' % e
@@ -424,7 +428,11 @@ def replay(path, quiet=False):
             warnings.simplefilter('ignore')
             mod.case(ctx, **data['params'])
     except Inadmissible as e:
-        detail = 'inadmissible input: %s' % e
+        if ctx.failures:        # failed before the (later, not retroactive) assumption was reached
+            failed = True
+            detail = '; '.join('%s: %s' % f for f in ctx.failures[:4])
+        else:
+            detail = 'inadmissible input: %s' % e
     except Exception as e:
         failed, detail = True, '<exception> %s: %s' % (type(e).__name__, str(e)[:300])
     else:
